@@ -3,7 +3,7 @@
 Theorems: coq/C16/Properties_C16.v (decimal/hex/octal/binary round trips for every integer, canonical
 form, pad length, sign-first zero padding of printf, %% literal, the interpolation splitter partitions
 the literal for every byte string, {{ }} literal, single-space joining, output in order up to an error
-exit; five laws refuted on the faithful model = known findings).
+exit; four laws refuted on the faithful model = known findings; {n:0N} sign-first since fix 4cd822e).
 Tie: generated Cb programs (declarations + print/println statements + optionally a failing statement)
 are run on /repo's binary; the extracted model (bin/c16_model) is given the same statements; stdout
 bytes are compared.  Independently every statement carries the output the property's own reading
@@ -29,11 +29,11 @@ META = {
             "render_formatted_string (printf subset %d %i %lld %u %x %X %o %c %s %% with flags 0 - and width), "
             "process_escape_sequences, the lexer's interpolation detection, parseInterpolatedString and "
             "format_interpolated_value: decimal/hex/octal/binary renderings parse back to the value (mod 2^64 for the "
-            "unsigned views), decimal output is canonical, padded length = max(width, digits), printf zero padding keeps "
-            "the sign first, %% gives %, the splitter's segments re-assemble to the literal for every byte string, "
+            "unsigned views), decimal output is canonical, padded length = max(width, digits), printf and {n:0N} zero "
+            "padding keep the sign first, %% gives %, the splitter's segments re-assemble to the literal for every byte string, "
             "{{ }} give braces, text outside braces is byte-identical, arguments are joined by single spaces, output "
-            "appears in statement order up to an error exit. Five laws are refuted on the faithful model (known "
-            "findings: {n:0N} pads in front of the sign, %c of a 0 byte prints the decimal number, escapes are not "
+            "appears in statement order up to an error exit. Four laws are refuted on the faithful model (known "
+            "findings: %c of a 0 byte prints the decimal number, escapes are not "
             "processed in multi-argument println, an escaped backslash hides a following directive, escapes are "
             "processed after substitution). On every run the extracted model and /repo's binary are run on "
             "the same generated programs (values at and around every power of two and integer type limit through every "
@@ -269,11 +269,6 @@ class Gen:
                     w = rng.randint(0, 22)
                     spec = rng.choice(["x", "X", "b", "d", "%d" % w, "%dd" % w, "0%d" % w, "0%dd" % w, "%dx" % w,
                                        "0%dx" % w, "0%dX" % w, "0%db" % w, "%db" % w, "%dX" % w, ""])
-                    if spec and spec[0] == "0" and spec.rstrip("d")[1:].isdigit() and v < 0 \
-                            and int(spec.rstrip("d")[1:]) > len(str(v)) and spec[-1] not in "xXb":
-                        # known finding C16-interp-zero-pad-sign: avoided in the main stream
-                        self.avoided["C16-interp-zero-pad-sign"] = self.avoided.get("C16-interp-zero-pad-sign", 0) + 1
-                        spec = spec[1:] if len(spec) > 1 and spec[1:].rstrip("d") else "d"
                 dollar = "$" if rng.random() < 0.12 else ""
                 parts.append(dollar + "{" + e + ("" if spec is None else ":" + spec) + "}")
                 w_ = spec_interp_value(v, spec)
@@ -425,9 +420,10 @@ class Gen:
         rng = self.rng
         r = rng.randint(0, 9)
         n, v = rng.choice(self.ints)
-        if r == 0:      # zero padding of any value, negative ones included
+        if r == 0:      # zero padding of any value, negative ones included (repaired by 4cd822e: has a demanded output)
             sp = rng.choice(["0%d", "0%dd"]) % rng.randint(0, 24)
-            args = [{"k": "Q", "text": "<{%s:%s}>" % (n, sp)}]
+            return {"nl": 1, "args": [{"k": "Q", "text": "<{%s:%s}>" % (n, sp)}], "kind": "quirk",
+                    "want": "<" + spec_interp_value(v, sp) + ">\n"}
         elif r == 1:    # %c of any value, with flags
             cv = rng.choice([0, 256, -256, 65536, rng.randint(-1000, 1000)])
             args = [{"k": "Q", "text": "[%" + rng.choice(["", "-", "0"]) + rng.choice(["", "3", "7"]) + "c|%d]"},
@@ -493,10 +489,6 @@ class Gen:
             return {"nl": 1, "args": [{"k": "Q", "text": ftxt}, {"k": "I", "v": v, "src": src}, {"k": "I", "v": 7, "src": "7"}],
                     "want": want, "kind": "grid-printf"}
         spec = a.replace("N", str(w))
-        if spec.startswith("0") and spec[-1] not in "xXb" and v < 0 and w > len(str(v)):
-            self.avoided["C16-interp-zero-pad-sign"] = self.avoided.get("C16-interp-zero-pad-sign", 0) + 1
-            v = -v if v != I64MIN else I64MAX
-            src = lit(v)
         e = src
         if [e, "I", v] not in self.env:
             self.env.append([e, "I", v])
@@ -930,8 +922,7 @@ def _run(rep, seed, tier, runner):
                 "evaluations = print/println statements executed; distinct = distinct statement source texts; non-trivial = "
                 "more than one argument, or a literal containing { } %% or a backslash (format path, interpolation, escapes, joining)" % want_checked,
         "exhaustive": tier == "thorough",
-        "exhaustive_space": ("all %d pairs (printf shape or interpolation spec with width 0..20) x (boundary value) enumerated completely; "
-                             "in the domain of known finding C16-interp-zero-pad-sign (0 flag, negative value, width > digits) the value is negated"
+        "exhaustive_space": ("all %d pairs (printf shape or interpolation spec with width 0..20) x (boundary value) enumerated completely"
                              % n_pairs) if tier == "thorough" else "none in the quick tier (rotating sample of the grid)",
         "grid": "every (converter in d lld i u x X o) x (flags '', 0, -, -0, 00) x width 0..20 printf shape and every interpolation spec "
                 "(N Nd 0N 0Nd Nx 0Nx NX 0NX Nb 0Nb) x width 0..20 is visited in rotation with boundary values (%d shapes, %d values: "
